@@ -32,7 +32,7 @@ def cases(ctx):
     for i in range(150 * K):
         yield {'kind': 'nfa', 'X': gen.random_nfa(rng, 5, rng.choice([['a', 'b'], ['a'], ['0', '1'], []])), 'ns': [0, 1, 2, 3, 4]}
     for i in range(150 * K):
-        Sg = rng.choice([['a', 'b'], ['a'], ['a', 'b', 'c']])
+        Sg = rng.choice([['a', 'b'], ['a'], ['a', 'b', 'c'], ['0', '1']])
         yield {'kind': 'regexp', 'X': gen.random_regexp(rng, rng.randint(0, 9), Sg), 'ns': [0, 1, 2, 3, 4]}
     for i in range(100 * K):
         yield {'kind': 'tm', 'X': gen.random_tm(rng), 'ns': [0, 1, 2, 3], 'k': rng.choice([1, 2, 3, 5, 50])}
@@ -40,6 +40,12 @@ def cases(ctx):
         yield {'kind': 'cfg', 'X': gen.random_cfg(rng, cnf=rng.random() < 0.5, maxlen=3, multichar=rng.random() < 0.35), 'ns': [0, 1, 2, 3, 4]}
     for i in range(20 * K):
         yield {'kind': 'cfg', 'X': gen.ambiguous_cfg(rng), 'ns': [0, 1, 2, 3]}
+    for i in range(20 * K):
+        yield {'kind': 'cfg', 'X': gen.unit_chain_cfg(rng), 'ns': [0, 1, 2, 3]}
+    for k in range(0, 3):          # symbols that print like the constants 0 and 1
+        for r in gen.regexps_of_size(k, ['0', '1']):
+            if k < 2 or rng.random() < (0.05 if not thorough else 0.5):
+                yield {'kind': 'regexp', 'X': r, 'ns': [0, 1, 2]}
     for i in range(50 * K):
         yield {'kind': 'pda', 'X': gen.random_pda(rng), 'ns': [0, 1, 2, 3] if i % 5 == 0 else [0, 1, 2]}
 
@@ -119,7 +125,6 @@ def judge(ctx, c, answers):
                 ctx.violation('enumeration-raises', {'case': sub, 'impl': got})
                 continue
             ws = got['ok']
-            res.append(enc.words(ws))
             model = la.get('ok')
             truncated = False
             if c['kind'] == 'pda':
@@ -128,6 +133,7 @@ def judge(ctx, c, answers):
             if any(len(w) > n for w in ws):
                 ctx.violation('enumeration-too-long-word', {'case': sub, 'impl': enc.words(ws)})
             if not truncated:
+                res.append(enc.words(ws))      # a truncated PDA enumeration may depend on the pop order: not compared across hash seeds
                 exp = reference(c, X, n)
                 if set(ws) != exp:
                     d = sorted(set(ws) ^ exp, key=len)[0]
